@@ -246,6 +246,82 @@ theorem missing_multi_channel_zero (kernel : R → R → R → R → R) (kps : L
     rw [this]
     exact ih (fun k hk => h k (by simp [hk]))
 
+/-! ## 3a. Missing = not visible **or** NaN; the stored representation is irrelevant -/
+
+omit [Add R] [Sub R] [Mul R] [Div R] [LT R] [DecidableLT R] [OfNat R 0] [OfNat R 1] [OfNat R 2] [DecidableEq R] in
+/-- a node that is not flagged visible is missing in `labelPts` whatever coordinates are stored;
+a visible node shows its stored coordinates: a keypoint is missing iff not visible or NaN -/
+theorem label_missing_iff (n : Node R) :
+    (n.visible = false → n.pt = Pt.nan) ∧ (n.visible = true → n.pt = n.xy) ∧
+    (n.pt.invisible = true ↔ (n.visible = false ∨ n.xy.invisible = true)) := by
+  cases h : n.visible <;> simp [Node.pt, h, Pt.nan, Pt.invisible]
+
+omit [Add R] [Sub R] [Mul R] [Div R] [LT R] [DecidableLT R] [OfNat R 0] [OfNat R 1] [OfNat R 2] [DecidableEq R] in
+/-- for well-flagged labels `is_empty` (computed from the flags) says exactly "every keypoint is
+missing" — e.g. an instance whose nodes all store finite coordinates but are all hidden is empty -/
+theorem empty_iff_all_missing (r : RawInst R) (hw : r.WellFlagged) :
+    r.abs.isEmpty = r.labelPts.all Pt.invisible := by
+  simp only [RawInst.abs, Inst.isEmpty, RawInst.labelPts, List.all_map]
+  rw [Bool.eq_iff_iff, List.all_eq_true, List.all_eq_true]
+  have hpt : ∀ n ∈ r.nodes, ((!n.visible) = true ↔ (Pt.invisible ∘ Node.pt) n = true) := by
+    intro n hn
+    cases h : n.visible
+    · simp [Node.pt, h, Pt.nan, Pt.invisible]
+    · simp [Node.pt, h, hw n hn h]
+  exact ⟨fun H n hn => (hpt n hn).mp (H n hn), fun H n hn => (hpt n hn).mpr (H n hn)⟩
+
+omit [Add R] [Sub R] [Mul R] [Div R] [LT R] [DecidableLT R] [OfNat R 0] [OfNat R 1] [OfNat R 2] [DecidableEq R] in
+/-- two stored instances of the same type with the same `labelPts` are indistinguishable for the
+datasets, however their missing nodes are stored -/
+theorem missing_repr_irrelevant_inst (r r' : RawInst R) (hk : r.kind = r'.kind)
+    (hp : r.labelPts = r'.labelPts) (hw : r.WellFlagged) (hw' : r'.WellFlagged) : r.abs = r'.abs := by
+  have h1 := empty_iff_all_missing r hw
+  have h2 := empty_iff_all_missing r' hw'
+  simp only [Inst.isEmpty] at h1 h2
+  have : r.abs.empty = r'.abs.empty := by rw [h1, h2, hp]
+  simp only [RawInst.abs] at this ⊢
+  rw [hk, hp, this]
+
+/-- **missing_repr_irrelevant**: samples and length depend on the labels only through
+`RawFrame.view` (types and `labelPts`): two label sets that differ only in *how* missing nodes
+are stored — `(NaN, hidden)` vs `(finite xy, hidden)`, anchor node included — give the same
+dataset. -/
+theorem missing_repr_irrelevant (cfg : Cfg R) (cast : Nat → R) (fs fs' : List (RawFrame R))
+    (hw : ∀ f ∈ fs, ∀ r ∈ f.insts, r.WellFlagged) (hw' : ∀ f ∈ fs', ∀ r ∈ f.insts, r.WellFlagged)
+    (hv : fs.map RawFrame.view = fs'.map RawFrame.view) (i : Nat) :
+    specSample cfg cast (fs.map RawFrame.abs) i = specSample cfg cast (fs'.map RawFrame.abs) i ∧
+    specLen cfg (fs.map RawFrame.abs) = specLen cfg (fs'.map RawFrame.abs) := by
+  -- the observed frame is a function of the view
+  let ofView : Nat × Nat × Nat × Nat × List (Kind × List (Pt R)) → Frame R := fun v =>
+    ⟨v.1, v.2.1, v.2.2.1, v.2.2.2.1, v.2.2.2.2.map fun kp => ⟨kp.1, kp.2, kp.2.all Pt.invisible⟩⟩
+  have key : ∀ (gs : List (RawFrame R)), (∀ f ∈ gs, ∀ r ∈ f.insts, r.WellFlagged) →
+      gs.map RawFrame.abs = (gs.map RawFrame.view).map ofView := by
+    intro gs hg
+    rw [List.map_map]
+    apply List.map_congr_left
+    intro f hf
+    simp only [Function.comp, RawFrame.abs, RawFrame.view, ofView, List.map_map]
+    congr 1
+    apply List.map_congr_left
+    intro r hr
+    have := empty_iff_all_missing r (hg f hf r hr)
+    simp only [Inst.isEmpty] at this
+    simp only [Function.comp, RawInst.abs] at this ⊢
+    rw [this]
+  rw [key fs hw, key fs' hw', hv]
+  exact ⟨rfl, rfl⟩
+
+/-- the hypotheses are satisfiable by two genuinely different representations: the anchor node
+stored as `(NaN, hidden)` and as `(finite, hidden)` -/
+example (x y u v : R) :
+    (⟨.user, [⟨(none, none), false⟩, ⟨(some x, some y), true⟩]⟩ : RawInst R).WellFlagged ∧
+    (⟨.user, [⟨(some u, some v), false⟩, ⟨(some x, some y), true⟩]⟩ : RawInst R).WellFlagged ∧
+    (⟨.user, [⟨(none, none), false⟩, ⟨(some x, some y), true⟩]⟩ : RawInst R).labelPts
+      = (⟨.user, [⟨(some u, some v), false⟩, ⟨(some x, some y), true⟩]⟩ : RawInst R).labelPts := by
+  refine ⟨?_, ?_, rfl⟩ <;> intro n hn hv <;>
+    simp only [List.mem_cons, List.not_mem_nil, or_false] at hn <;>
+    rcases hn with rfl | rfl <;> simp_all [Pt.invisible]
+
 /-! ## 4. `__getitem__`: only allocation; deterministic -/
 
 omit [Add R] [Sub R] [Mul R] [Div R] [LT R] [DecidableLT R] [OfNat R 0] [OfNat R 1] [OfNat R 2] [DecidableEq R] in
@@ -320,8 +396,8 @@ theorem getitem_eq_spec_build (cfg : Cfg R) (cast : Nat → R) (fs : List (Frame
   exact getitem_eq_spec cfg cast fs _ W hb js i
 
 /-- the hypotheses are satisfiable: a frame with a complete and an anchorless two-node instance -/
-example (x y : R) : Uniform [(⟨0, 0, 8, 8, [⟨.user, [(some x, some y), (none, none)]⟩,
-    ⟨.predicted, [(none, none), (some x, some y)]⟩]⟩ : Frame R)] 2 ∧ ∀ a, some 1 = some a → a < 2 := by
+example (x y : R) : Uniform [(⟨0, 0, 8, 8, [⟨.user, [(some x, some y), (none, none)], false⟩,
+    ⟨.predicted, [(none, none), (some x, some y)], false⟩]⟩ : Frame R)] 2 ∧ ∀ a, some 1 = some a → a < 2 := by
   refine ⟨?_, fun a h => by cases h; decide⟩
   intro f hf i hi
   simp only [List.mem_singleton] at hf
